@@ -2,4 +2,5 @@ import PydjinniModel.Props.C05
 import PydjinniModel.Props.C05Front
 import PydjinniModel.Props.C05Spec
 import PydjinniModel.Props.C05SpecPerm
+import PydjinniModel.Props.C05Program
 /-! All C05 theorems. -/
